@@ -181,4 +181,31 @@ def mapItems (m : WMap) : List Item :=
 def writeMap (deflate : List UInt8 → List UInt8) (m : WMap) : List UInt8 :=
   writeDf 4 deflate (mapItems m) m.datas
 
+def zname : Int × Int × Int := (-2139062144, -2139062144, -2139062144)
+def aname : Int × Int × Int := (-1044266559, -2139062144, -2139062144)
+
+def sampleTile (kind : WTileKind) (color : Nat × Nat × Nat × Nat) (env : Option (Nat × Int))
+    (image : Option Nat) (name : Int × Int × Int) (detail : Bool) : WLayer :=
+  WLayer.mk detail (WLayerKind.tilemap (WTilemap.mk 2 2 kind color env image 5 name))
+
+/-- sample maps (used for the non-vacuity examples and, written out by the driver, as corpus
+files that the real reader is run on) -/
+def sampleMap (k : Nat) : WMap :=
+  WMap.mk
+    (WInfo.mk (some 0) none (if k % 2 = 0 then some 1 else none) none (some 2))
+    [WImage.mk 2 1 3 (some 4), WImage.mk 1 1 3 none]
+    (k % 3)
+    [WGroup.mk (-1) 2 100 100 none zname 2,
+     WGroup.mk 0 0 50 50 (some (1, 2, 3, 4)) aname (if k % 2 = 0 then 3 else 2)]
+    ([sampleTile WTileKind.game (255, 255, 255, 255) none none zname false,
+      sampleTile WTileKind.normal (1, 2, 3, 4) (if k % 3 = 0 then none else some (0, 7)) (some 1) aname true,
+      WLayer.mk false (WLayerKind.quads (WQuads.mk 1 4 (some 0) zname)),
+      sampleTile (WTileKind.teleport 6) (0, 0, 0, 0) none none zname false]
+      ++ (if k % 2 = 0 then
+            [WLayer.mk false (WLayerKind.sounds (WSounds.mk 1 4 (if k % 4 = 0 then some 0 else none) zname))]
+          else []))
+    (if k % 4 = 0 then 1 else 0)
+    [[97, 0], [98, 99, 0], [120, 0, 121, 122, 0], [105, 109, 103, 0], [1, 2, 3, 4, 5, 6, 7, 8],
+     [0, 0, 0, 0, 1, 0, 0, 0, 2, 0, 0, 0, 3, 0, 0, 0], [1, 10, 2, 11, 3, 12, 4, 13]]
+
 end Tw.Map
